@@ -337,6 +337,9 @@ c.ensures("inherit/leaves-the-tracker-alone-otherwise", "implies('tracker_args' 
 c.ensures("main/never-reloaded-unless-the-parent-asked",
           f"implies('init_main_from_name' not in data and 'init_main_from_path' not in data, {FIX} == 0)", prop="C18")
 c.ensures("main/reloaded-at-most-once", f"{FIX} <= 1", prop="C18")
+INSTALLED = ("implies('tracker_args' in data, loky_tracker()._pid == unbox(data['tracker_args']['pid']) and loky_tracker()._fd == unbox(data['tracker_args']['fd']))")
+for fx in ("_fixup_main_from_name", "_fixup_main_from_path"):
+    c.at_call(f"loky.backend.spawn:{fx}", "the-parents-tracker-is-installed-before-the-main-module-is-re-run", INSTALLED, prop="C12")
 c.raises("prepare/errors-of-the-fix-up-or-logging-propagate", "BaseException",
          post=f"implies('init_main_from_name' not in data and 'init_main_from_path' not in data, {FIX} == 0)", prop="C18")
 c.modifies("loky_tracker()._fd", "loky_tracker()._pid", f"glob:loky.backend.spawn.old_main_modules", "mp_tracker()._fd", "mp_tracker()._pid",
@@ -353,20 +356,28 @@ S.ext("Handler.setFormatter", cite="Handler.setFormatter(fmt): logging configura
 # ======================================================================
 # initializers.py (C18: every worker runs the configured initializer first)
 IN = Module("loky.initializers")
-IN.cls("_ChainedInitializer", {"_initializers": T.Obj})
+IN.cls("_ChainedInitializer", {"_initializers": T.Lst(T.Obj)})
 S.contracts["loky.initializers:_prepare_initializer"].trusted_summary = False
 c = S.contracts["loky.initializers:_prepare_initializer"]
-c.ensures("prepare/chains-the-user-initializer-first",
-          "log_count('call:_chain_initializers') == 1 and result is log_arg('call:_chain_initializers', 0, 0)", prop="C18")
+VZ = "log_arg('call:_make_viztracer_initializer_and_initargs', 0, 0)"
+c.ensures("prepare/the-user-initializer-comes-first-with-its-own-arguments",
+          f"log_count('call:_make_viztracer_initializer_and_initargs') == 1 and "
+          f"ite(initializer is None, ite({VZ}[0] is None, result[0] is None, result[0] is {VZ}[0] and result[1] is {VZ}[1]), "
+          f"ite({VZ}[0] is None, result[0] is initializer and result[1] is initargs, "
+          f"cls_is(result[0], '_ChainedInitializer') and len(as_(result[0], '_ChainedInitializer')._initializers) == 2 and "
+          f"as_(result[0], '_ChainedInitializer')._initializers[0] is initializer and as_(result[0], '_ChainedInitializer')._initializers[1] is {VZ}[0] and "
+          f"len(result[1]) == 2 and result[1][0] is initargs and result[1][1] is {VZ}[1]))", prop="C18")
 c.exsures_[:] = []
 c.raises("prepare/non-callable-rejected-before-anything-else", "TypeError", post="initializer is not None and not callable_(initializer) and log_len() == 0", prop="C18")
 c.raises_only("prepare/only-typeerror")
 c = IN.contract("_make_viztracer_initializer_and_initargs")
 c.returns(T.Tup(T.Obj, T.Obj)).modifies()
 c.trusted_summary = True
-c = IN.contract("_chain_initializers", props=["C18"])
-c.param("initializer_and_args", T.Obj)
-c.returns(T.Tup(T.Obj, T.Obj)).modifies()
-c.trusted_summary = True
-c.note("the filtering/chaining loop builds Python lists of unknown length: left as an assumed summary (bounded stand-in in the thorough tier)")
+c.note("optional third-party profiler (viztracer): its API is outside the claim")
+# _chain_initializers has no contract: its body is executed at its only call site (two pairs: exact unrolling)
+c = IN.contract("_ChainedInitializer.__init__", props=["C18"])
+c.param("self", T.Ref("_ChainedInitializer")).param("initializers", T.Lst(T.Obj))
+c.ensures("chained/keeps-the-list", "self._initializers is initializers")
+c.raises_only("chained/no-exception")
+c.modifies("self._initializers")
 S.ext("logging.Formatter", cite="logging.Formatter(fmt)").param("fmt", T.Obj).returns(T.Obj).modifies()
